@@ -43,6 +43,7 @@ import (
 // Config ...
 type Config interface {
 	NeedFullSync() bool
+	TrackChanges()
 	Sync(full bool)
 	ReadAnnotations(backend *hatypes.Backend, services []*api.Service, pathLinks []*hatypes.PathLink)
 }
@@ -104,6 +105,7 @@ type converter struct {
 	hostOrder      []*hatypes.Host
 	backendOrder   []*hatypes.Backend
 	ingressClasses map[string]*ingressClassConfig
+	changesTracked bool
 }
 
 func (c *converter) ReadAnnotations(backend *hatypes.Backend, services []*api.Service, pathLinks []*hatypes.PathLink) {
@@ -220,9 +222,24 @@ func (c *converter) syncFull() {
 	c.syncEndpoints()
 }
 
-func (c *converter) syncPartial() {
+// TrackChanges links the added and updated ingress resources to the hosts and
+// backends they declare, before any of them is parsed. A partial sync needs
+// these links to find everything an added or updated ingress touches; they also
+// need to be in place before any other converter asks the tracker if the changes
+// reach its own resources - the gateway converter has no partial parsing and
+// asks for a full sync instead - otherwise the partial sync of the ingress
+// converter removes hosts and backends that nobody builds again. It runs once.
+func (c *converter) TrackChanges() {
+	if c.changesTracked {
+		return
+	}
+	c.changesTracked = true
 	c.addIngressOfChangedClasses()
 	c.trackAddedIngress()
+}
+
+func (c *converter) syncPartial() {
+	c.TrackChanges()
 	trackedLinks := c.tracker.QueryLinks(c.changed.Links, true)
 
 	dirtyIngs := trackedLinks[convtypes.ResourceIngress]
